@@ -27,8 +27,8 @@ Inductive laysn (out : bytes) : N -> list label -> nat -> N -> Prop :=
     laysn out p (l :: ls) h e
 | L_ptr p pre c c1 rest ls h e :
     out = pre ++ c :: c1 :: rest -> p = lenN pre -> 192 <= c ->
-    (c - 192) * 256 + c1 < p ->
-    nthN out ((c - 192) * 256 + c1) 0 < 64 -> ls <> [] ->
+    (c - 192) * 256 + c1 < p -> (c - 192) * 256 + c1 < max_compression_offset ->
+    1 <= nthN out ((c - 192) * 256 + c1) 0 < 64 -> ls <> [] ->
     laysn out ((c - 192) * 256 + c1) ls h e ->
     laysn out p ls (S h) (p + 2).
 
@@ -79,17 +79,18 @@ Qed.
 Lemma laysn_ptr_at out p ls h e :
   p + 1 < lenN out -> 192 <= nthN out p 0 ->
   (nthN out p 0 - 192) * 256 + nthN out (p + 1) 0 < p ->
-  nthN out ((nthN out p 0 - 192) * 256 + nthN out (p + 1) 0) 0 < 64 -> ls <> [] ->
+  (nthN out p 0 - 192) * 256 + nthN out (p + 1) 0 < max_compression_offset ->
+  1 <= nthN out ((nthN out p 0 - 192) * 256 + nthN out (p + 1) 0) 0 < 64 -> ls <> [] ->
   laysn out ((nthN out p 0 - 192) * 256 + nthN out (p + 1) 0) ls h e ->
   laysn out p ls (S h) (p + 2).
 Proof.
-  intros Hp Hc Hq Hlab Hne H. assert (Hp0 : p < lenN out) by lia.
+  intros Hp Hc Hq Hm Hlab Hne H. assert (Hp0 : p < lenN out) by lia.
   destruct (split_at out p 0 Hp0) as [E L].
   assert (Hd : dropN (p + 1) out = nthN out (p + 1) 0 :: dropN (p + 1 + 1) out).
   { destruct (split_at out (p + 1) 0 Hp) as [E1 L1].
     rewrite E1 at 1. rewrite <- L1 at 1. apply dropN_app_exact. }
   rewrite Hd in E.
-  eapply L_ptr; [exact E|now rewrite L|exact Hc|exact Hq|exact Hlab|exact Hne|exact H].
+  eapply L_ptr; [exact E|now rewrite L|exact Hc|exact Hq|exact Hm|exact Hlab|exact Hne|exact H].
 Qed.
 
 (* ---------- a fuelled boolean reader (used by the examples) ---------- *)
@@ -109,7 +110,8 @@ Fixpoint laysb (fuel : nat) (out : bytes) (p : N) (ls : list label) : bool :=
         end
       else if 192 <=? c then
         let q := (c - 192) * 256 + nthN out (p + 1) 0 in
-        (p + 1 <? lenN out) && (q <? p) && (nthN out q 0 <? 64)
+        (p + 1 <? lenN out) && (q <? p) && (q <? max_compression_offset)
+        && (1 <=? nthN out q 0) && (nthN out q 0 <? 64)
         && negb (match ls with [] => true | _ => false end) && laysb f out q ls
       else false
   end.
@@ -130,7 +132,8 @@ Proof.
       split; [|lia]. intro E. subst l. cbn in H0. discriminate.
     + destruct (192 <=? nthN out p 0) eqn:H192; [|discriminate].
       apply andb_prop in H. destruct H as [H H5]. apply andb_prop in H. destruct H as [H H4].
-      apply andb_prop in H. destruct H as [H H3]. apply andb_prop in H. destruct H as [H1 H2].
+      apply andb_prop in H. destruct H as [H H3]. apply andb_prop in H. destruct H as [H H3'].
+      apply andb_prop in H. destruct H as [H H3'']. apply andb_prop in H. destruct H as [H1 H2].
       apply IH in H5. destruct H5 as [h [e H5]].
       exists (S h), (p + 2). apply (laysn_ptr_at out p ls h e); auto; try lia.
       destruct ls; [discriminate|discriminate].
@@ -139,18 +142,18 @@ Qed.
 (* ---------- monotone under append ---------- *)
 Lemma laysn_app out p ls h e b : laysn out p ls h e -> laysn (out ++ b) p ls h e.
 Proof.
-  induction 1 as [p pre rest E P | p pre l rest ls h e Hok E P _ IH | p pre c c1 rest ls h e E P Hc Hq Hl Hne _ IH].
+  induction 1 as [p pre rest E P | p pre l rest ls h e Hok E P _ IH | p pre c c1 rest ls h e E P Hc Hq Hm Hl Hne _ IH].
   - eapply L_root; [|exact P]. rewrite E, <- app_assoc. reflexivity.
   - eapply L_label; [exact Hok| |exact P|exact IH].
     rewrite E, <- app_assoc. cbn [app]. rewrite <- app_assoc. reflexivity.
-  - eapply L_ptr; [|exact P|exact Hc|exact Hq| |exact Hne|exact IH].
+  - eapply L_ptr; [|exact P|exact Hc|exact Hq|exact Hm| |exact Hne|exact IH].
     + rewrite E, <- app_assoc. reflexivity.
     + rewrite nthN_app_l; [exact Hl|]. rewrite E, lenN_app. lia.
 Qed.
 
 Lemma laysn_bound out p ls h e : laysn out p ls h e -> p < lenN out /\ e <= lenN out.
 Proof.
-  induction 1 as [p pre rest E P | p pre l rest ls h e Hok E P _ IH | p pre c c1 rest ls h e E P Hc Hq Hl Hne _ IH].
+  induction 1 as [p pre rest E P | p pre l rest ls h e Hok E P _ IH | p pre c c1 rest ls h e E P Hc Hq Hm Hl Hne _ IH].
   - rewrite E, lenN_app, lenN_cons. lia.
   - split; [|tauto]. rewrite E, lenN_app, lenN_cons. lia.
   - rewrite E, lenN_app, !lenN_cons. lia.
@@ -166,21 +169,97 @@ Lemma laysn_head out p ls h e : laysn out p ls h e ->
   | l :: _ => nthN out p 0 = lenN l \/ 192 <= nthN out p 0
   end.
 Proof.
-  destruct 1 as [p pre rest E P | p pre l rest ls h e Hok E P _ | p pre c c1 rest ls h e E P Hc Hq Hl Hne _].
+  destruct 1 as [p pre rest E P | p pre l rest ls h e Hok E P _ | p pre c c1 rest ls h e E P Hc Hq Hm Hl Hne _].
   - subst. apply nthN_app_exact.
   - left. subst. apply nthN_app_exact.
   - destruct ls; [congruence|]. right. subst p. rewrite E, nthN_app_exact. exact Hc.
+Qed.
+
+(* walking a laid name: at a label octet the label is read and the walk goes on
+   behind it; at a pointer the target is an earlier offset below the limit that
+   holds a label octet, and the walk goes on there with the same labels left *)
+Lemma laysn_label_inv out p ls h e : laysn out p ls h e -> 1 <= nthN out p 0 < 64 ->
+  exists l ls', ls = l :: ls' /\ nthN out p 0 = lenN l /\
+    takeN (lenN l) (dropN (p + 1) out) = l /\ laysn out (p + 1 + lenN l) ls' h e.
+Proof.
+  destruct 1 as [p pre rest E P | p pre l rest ls h e Hok E P H | p pre c c1 rest ls h e E P Hc Hq Hm Hl Hne _];
+    intro Hr.
+  - exfalso. subst. rewrite nthN_app_exact in Hr. lia.
+  - exists l, ls. split; [reflexivity|]. subst p. split; [rewrite E; apply nthN_app_exact|]. split; [|exact H].
+    rewrite E.
+    replace (pre ++ lenN l :: l ++ rest) with ((pre ++ [lenN l]) ++ l ++ rest)
+      by (rewrite <- app_assoc; reflexivity).
+    replace (lenN pre + 1) with (lenN (pre ++ [lenN l])) by (rewrite lenN_app, lenN_cons, lenN_nil; lia).
+    now rewrite dropN_app_exact, takeN_app_exact.
+  - exfalso. subst p. rewrite E, nthN_app_exact in Hr. lia.
+Qed.
+
+Lemma laysn_ptr_inv out p ls h e : laysn out p ls h e -> 192 <= nthN out p 0 ->
+  (nthN out p 0 - 192) * 256 + nthN out (p + 1) 0 < p /\
+  (nthN out p 0 - 192) * 256 + nthN out (p + 1) 0 < max_compression_offset /\
+  1 <= nthN out ((nthN out p 0 - 192) * 256 + nthN out (p + 1) 0) 0 < 64 /\ ls <> [] /\
+  exists h' e', h = S h' /\ e = p + 2 /\
+    laysn out ((nthN out p 0 - 192) * 256 + nthN out (p + 1) 0) ls h' e'.
+Proof.
+  destruct 1 as [p pre rest E P | p pre l rest ls h e Hok E P H | p pre c c1 rest ls h e E P Hc Hq Hm Hl Hne H];
+    intro Hr.
+  - exfalso. subst. rewrite nthN_app_exact in Hr. lia.
+  - exfalso. destruct Hok as [_ H64]. subst p. rewrite E, nthN_app_exact in Hr. lia.
+  - assert (Hn0 : nthN out p 0 = c). { subst p. rewrite E. apply nthN_app_exact. }
+    assert (Hn1 : nthN out (p + 1) 0 = c1).
+    { subst p. rewrite E.
+      replace (pre ++ c :: c1 :: rest) with ((pre ++ [c]) ++ c1 :: rest) by (rewrite <- app_assoc; reflexivity).
+      replace (lenN pre + 1) with (lenN (pre ++ [c])) by (rewrite lenN_app, lenN_cons, lenN_nil; lia).
+      apply nthN_app_exact. }
+    rewrite Hn0, Hn1. repeat split; auto; try lia. exists h, e. auto.
+Qed.
+
+(* the positions visited while reading a name, with the labels still to come *)
+Inductive reach (out : bytes) : N -> list label -> N -> list label -> Prop :=
+| R_here p ls : reach out p ls p ls
+| R_label p l ls p' ls' :
+    nthN out p 0 = lenN l -> 1 <= lenN l < 64 ->
+    reach out (p + 1 + lenN l) ls p' ls' -> reach out p (l :: ls) p' ls'
+| R_ptr p ls p' ls' :
+    192 <= nthN out p 0 ->
+    reach out ((nthN out p 0 - 192) * 256 + nthN out (p + 1) 0) ls p' ls' -> reach out p ls p' ls'.
+
+Lemma reach_lays out p ls p' ls' : reach out p ls p' ls' -> forall h e, laysn out p ls h e ->
+  (exists h' e', laysn out p' ls' h' e') /\ exists pre, ls = pre ++ ls'.
+Proof.
+  induction 1 as [p ls | p l ls p' ls' Hn Hl _ IH | p ls p' ls' Hc _ IH]; intros h e H.
+  - split; [now exists h, e|now exists []].
+  - destruct (laysn_label_inv _ _ _ _ _ H ltac:(lia)) as [l0 [ls0 [E [_ [_ H']]]]].
+    injection E as <- <-. destruct (IH _ _ H') as [A [pre B]]. split; [exact A|].
+    exists (l :: pre). now rewrite B.
+  - destruct (laysn_ptr_inv _ _ _ _ _ H Hc) as [_ [_ [_ [_ [h' [e' [_ [_ H']]]]]]]].
+    exact (IH _ _ H').
+Qed.
+
+(* every pointer met while reading a laid name targets an earlier offset below
+   the limit that holds a label octet, where a non-empty suffix of the name is laid *)
+Theorem laid_pointers_valid out p ls p' ls' :
+  lays out p ls -> reach out p ls p' ls' -> 192 <= nthN out p' 0 ->
+  (nthN out p' 0 - 192) * 256 + nthN out (p' + 1) 0 < p' /\
+  (nthN out p' 0 - 192) * 256 + nthN out (p' + 1) 0 < max_compression_offset /\
+  1 <= nthN out ((nthN out p' 0 - 192) * 256 + nthN out (p' + 1) 0) 0 < 64 /\
+  ls' <> [] /\ lays out ((nthN out p' 0 - 192) * 256 + nthN out (p' + 1) 0) ls' /\
+  exists pre, ls = pre ++ ls'.
+Proof.
+  intros [h [e H]] Hr Hc. destruct (reach_lays _ _ _ _ _ Hr _ _ H) as [[h' [e' H']] Hpre].
+  destruct (laysn_ptr_inv _ _ _ _ _ H' Hc) as [A [B [C [D [h2 [e2 [_ [_ E]]]]]]]].
+  repeat split; auto; try lia. now exists h2, e2.
 Qed.
 
 (* hops: every hop lands on a label, so there are at most as many hops as labels *)
 Lemma laysn_hops out p ls h e : laysn out p ls h e ->
   (h <= length ls)%nat /\ (nthN out p 0 < 64 -> (h < length ls)%nat \/ h = O).
 Proof.
-  induction 1 as [p pre rest E P | p pre l rest ls h e Hok E P _ IH | p pre c c1 rest ls h e E P Hc Hq Hl Hne _ IH].
+  induction 1 as [p pre rest E P | p pre l rest ls h e Hok E P _ IH | p pre c c1 rest ls h e E P Hc Hq Hm Hl Hne _ IH].
   - cbn. lia.
   - cbn [length]. lia.
   - assert (Hpos : (0 < length ls)%nat) by (destruct ls; [congruence|cbn; lia]).
-    destruct IH as [IH1 IH2]. specialize (IH2 Hl). split; [lia|].
+    destruct IH as [IH1 IH2]. specialize (IH2 (proj2 Hl)). split; [lia|].
     intro H. exfalso. subst p. rewrite E, nthN_app_exact in H. lia.
 Qed.
 
@@ -192,7 +271,7 @@ Lemma un_go_laysn out p ls h e : laysn out p ls h e ->
   un_go fuel out p s off1 budget ptr =
   Ok (match s ++ show_labels ls with [] => [46] | x => x end, if ptr =? 0 then e else off1).
 Proof.
-  induction 1 as [p pre rest E P | p pre l rest ls h e Hok E P _ IH | p pre c c1 rest ls h e E P Hc Hq Hl Hne _ IH];
+  induction 1 as [p pre rest E P | p pre l rest ls h e Hok E P _ IH | p pre c c1 rest ls h e E P Hc Hq Hm Hl Hne _ IH];
     intros fuel s off1 budget ptr Hfuel Hbud Hptr.
   - destruct fuel as [|fuel]; [cbn [length] in Hfuel; lia|]. cbn [un_go]. subst out p.
     rewrite lenN_app, lenN_cons. bfalse (lenN pre + (1 + lenN rest) <=? lenN pre).
@@ -233,6 +312,43 @@ Proof.
     bfalse (ptr + 1 =? 0). destruct (ptr =? 0); f_equal; f_equal; lia.
 Qed.
 
+(* ... and more than 126 hops are refused: the decoder gives up at hop 127 *)
+Lemma un_go_laysn_err out p ls h e : laysn out p ls h e ->
+  forall fuel s off1 budget ptr,
+  (length ls + h < fuel)%nat -> (Z.of_N (lenN (wire_labels ls)) < budget)%Z ->
+  ptr <= max_pointers -> max_pointers < ptr + N.of_nat h ->
+  un_go fuel out p s off1 budget ptr = Err "pointers".
+Proof.
+  induction 1 as [p pre rest E P | p pre l rest ls h e Hok E P _ IH | p pre c c1 rest ls h e E P Hc Hq Hm Hl Hne _ IH];
+    intros fuel s off1 budget ptr Hfuel Hbud Hptr Hover.
+  - lia.
+  - destruct fuel as [|fuel]; [cbn [length] in Hfuel; lia|]. cbn [un_go].
+    destruct Hok as [Hne Hl64].
+    assert (Hl1 : 1 <= lenN l). { destruct l; [congruence|]. rewrite lenN_cons. lia. }
+    assert (Hlen : lenN out = lenN pre + 1 + lenN l + lenN rest).
+    { rewrite E, lenN_app, lenN_cons, lenN_app. lia. }
+    assert (Hn0 : nthN out p 0 = lenN l). { subst p. rewrite E. apply nthN_app_exact. }
+    rewrite Hn0. subst p. bfalse (lenN out <=? lenN pre).
+    btrue (lenN l <? 64). bfalse (lenN l =? 0).
+    bfalse (lenN out <? lenN pre + 1 + lenN l).
+    rewrite wire_labels_cons, lenN_cons, lenN_app in Hbud.
+    match goal with |- context [(?b <=? 0)%Z] => bfalse (b <=? 0)%Z end.
+    apply IH; [cbn [length] in Hfuel; lia|clear - Hbud; lia|exact Hptr|exact Hover].
+  - destruct fuel as [|fuel]; [lia|]. cbn [un_go].
+    assert (Hlen : lenN out = lenN pre + 2 + lenN rest).
+    { rewrite E, lenN_app, !lenN_cons. lia. }
+    assert (Hn0 : nthN out p 0 = c). { subst p. rewrite E. apply nthN_app_exact. }
+    assert (Hn1 : nthN out (p + 1) 0 = c1).
+    { subst p. rewrite E.
+      replace (pre ++ c :: c1 :: rest) with ((pre ++ [c]) ++ c1 :: rest) by (rewrite <- app_assoc; reflexivity).
+      replace (lenN pre + 1) with (lenN (pre ++ [c])) by (rewrite lenN_app, lenN_cons, lenN_nil; lia).
+      apply nthN_app_exact. }
+    rewrite Hn0, Hn1. bfalse (lenN out <=? p). bfalse (c <? 64). btrue (192 <=? c).
+    bfalse (lenN out <=? p + 1).
+    destruct (max_pointers <? ptr + 1) eqn:Hmp; [reflexivity|].
+    apply IH; [lia|exact Hbud|lia|lia].
+Qed.
+
 Lemma lab_ok_wire_len ls : Forall lab_ok ls -> 2 * N.of_nat (length ls) <= lenN (wire_labels ls).
 Proof.
   induction 1 as [|l ls [Hne _] _ IH]; [cbn; lia|].
@@ -242,6 +358,9 @@ Proof.
 Qed.
 
 Lemma unpack_fuel_enough n h : 2 * N.of_nat n <= 254 -> (h <= 126)%nat -> (n + h < unpack_name_fuel)%nat.
+Proof. unfold unpack_name_fuel. lia. Qed.
+
+Lemma unpack_fuel_enough2 n h : 2 * N.of_nat n <= 254 -> (h <= n)%nat -> (n + h < unpack_name_fuel)%nat.
 Proof. unfold unpack_name_fuel. lia. Qed.
 
 Local Opaque un_go.
@@ -262,6 +381,21 @@ Proof.
     pose proof (show_labels_nonempty l ls). destruct (show_labels (l :: ls)); [congruence|reflexivity].
   - apply unpack_fuel_enough; lia.
   - unfold max_name_wire. lia.
+  - unfold max_pointers. lia.
+Qed.
+
+Theorem lays_unpack_too_many_hops out p ls h e :
+  laysn out p ls h e -> wire_len ls <= 255 -> (126 < h)%nat ->
+  unpack_name out p = Err "pointers".
+Proof.
+  intros H Hlen Hh. unfold unpack_name.
+  unfold wire_len, wire_name in Hlen. rewrite lenN_app, lenN_cons, lenN_nil in Hlen.
+  pose proof (lab_ok_wire_len ls (laysn_labels_ok _ _ _ _ _ H)) as Hn.
+  pose proof (laysn_hops _ _ _ _ _ H) as [Hhl _].
+  apply (un_go_laysn_err out p ls h e H).
+  - apply unpack_fuel_enough2; lia.
+  - unfold max_name_wire. lia.
+  - unfold max_pointers. lia.
   - unfold max_pointers. lia.
 Qed.
 
@@ -541,13 +675,13 @@ Qed.
 (* ================= C. pack_name ================= *)
 Lemma pn_go_root cap cp st e :
   pn_go [46] true [] [46] false 0 cap cp st = Ok e ->
-  e = PnDone {| pn_out := pn_out st ++ [0]; pn_cm := pn_cm st |}.
+  e = PnDone {| pn_out := pn_out st ++ [0]; pn_cm := pn_cm st |} /\ lenN (pn_out st) + 1 <= cap.
 Proof.
   cbn [pn_go andb negb]. change (lenN (@nil N)) with 0.
   change (64 <=? 0) with false. cbn iota.
-  destruct (cap <? lenN (pn_out st) + 1 + 0); [discriminate|].
+  destruct (cap <? lenN (pn_out st) + 1 + 0) eqn:Hc; [discriminate|].
   change (max_name_wire <? 0 + 1 + 0 + 1) with false. cbn iota.
-  destruct st as [out [cm|]]; cbn [pn_cm pn_out]; intro H; injection H as <-; reflexivity.
+  destruct st as [out [cm|]]; cbn [pn_cm pn_out] in *; intro H; injection H as <-; (split; [reflexivity|lia]).
 Qed.
 
 Lemma u16_pointer q : q < max_compression_offset ->
@@ -563,6 +697,7 @@ Lemma pack_name_step s cap cp st st' :
   s <> [] -> opt_all cm_keys (pn_cm st) -> pack_name s cap cp st = Ok st' ->
   exists ls b,
     parse_name s = Some ls /\ wire_len ls <= 255 /\ pn_out st' = pn_out st ++ b /\
+    lenN (pn_out st') <= cap /\
     opt_all cm_keys (pn_cm st') /\ (pn_cm st = None -> pn_cm st' = None) /\
     (b = wire_name ls \/
      exists ls1 lsT q k cm, ls = ls1 ++ lsT /\ lsT <> [] /\ b = wire_labels ls1 ++ u16 (q + 49152) /\
@@ -579,8 +714,9 @@ Proof.
   - (* the root name *)
     rewrite E in *.
     destruct (pn_go [46] true [] [46] false 0 cap cp st) as [e| | |] eqn:Hgo; cbn [bind] in H; try discriminate.
-    apply pn_go_root in Hgo. subst e. cbn in H. injection H as <-. cbn [pn_out pn_cm].
-    exists [], [0]. split; [reflexivity|]. split; [cbn; lia|]. split; [reflexivity|]. split; [exact Hkeys|].
+    apply pn_go_root in Hgo. destruct Hgo as [-> Hcapr]. cbn in H. injection H as <-. cbn [pn_out pn_cm].
+    exists [], [0]. split; [reflexivity|]. split; [cbn; lia|]. split; [reflexivity|].
+    split; [rewrite lenN_app, lenN_cons, lenN_nil; lia|]. split; [exact Hkeys|].
     split; [auto|]. split; [now left|].
     intros pre Hpre Hold. split; [|now apply opt_cm_laid_app].
     exists O. replace (lenN pre + lenN [0]) with (lenN pre + 1) by (cbn; lia).
@@ -598,10 +734,11 @@ Proof.
     destruct e as [st1|st1 q]; cbn [end_st] in *.
     + (* the whole name was written: terminate it with the root octet *)
       subst lsT. rewrite app_nil_r in *.
-      destruct (lenN (pn_out st1) <? cap); [|discriminate]. injection H as <-. cbn [pn_out pn_cm].
+      destruct (lenN (pn_out st1) <? cap) eqn:Hcap1; [|discriminate]. injection H as <-. cbn [pn_out pn_cm].
       exists ls1, (wire_name ls1). split; [now rewrite Hpn|].
       split. { unfold wire_len, wire_name. change (lenN (wire_labels [])) with 0 in PL. rewrite lenN_app, lenN_cons, lenN_nil. lia. }
       split. { rewrite P3. unfold wire_name. now rewrite app_assoc. }
+      split; [rewrite lenN_app, lenN_cons, lenN_nil; lia|].
       split; [exact P4|]. split; [exact P5|]. split; [now left|].
       intros pre Hpre Hold. unfold wire_name.
       assert (T : laysn (pre ++ wire_labels ls1 ++ [0]) (lenN pre + lenN (wire_labels ls1)) [] O
@@ -616,10 +753,11 @@ Proof.
       * apply B. now apply opt_cm_laid_app.
     + (* the rest of the name is in the map: terminate with a pointer *)
       destruct P6 as [Hcp [cm [k [Ecm [Hin [Hq [Hk HneT]]]]]]].
-      destruct (cap <? lenN (pn_out st1) + 2); [discriminate|]. injection H as <-. cbn [pn_out pn_cm].
+      destruct (cap <? lenN (pn_out st1) + 2) eqn:Hcap1; [discriminate|]. injection H as <-. cbn [pn_out pn_cm].
       exists (ls1 ++ lsT), (wire_labels ls1 ++ u16 (q + 49152)). split; [now rewrite Hpn|].
       split. { unfold wire_len, wire_name. rewrite wire_labels_app, !lenN_app, lenN_cons, lenN_nil. lia. }
       split. { rewrite P3. now rewrite app_assoc. }
+      split; [unfold u16; rewrite lenN_app, !lenN_cons, lenN_nil; lia|].
       split; [exact P4|]. split; [exact P5|].
       split. { right. exists ls1, lsT, q, k, cm. repeat split; auto. }
       intros pre Hpre Hold. rewrite Ecm in Hold. cbn [opt_all] in Hold.
@@ -632,7 +770,8 @@ Proof.
         - rewrite lenN_app. reflexivity.
         - exact Hc.
         - rewrite Hdec. lia.
-        - rewrite Hdec, nthN_app_l by exact Hqlt. lia.
+        - rewrite Hdec. exact Hq.
+        - rewrite Hdec, nthN_app_l by exact Hqlt. exact Hoct.
         - exact HneT.
         - rewrite Hdec. now apply laysn_app. }
       destruct (P7 pre [c; c1] (S hq) _ Hpre T) as [A B]. split.
@@ -701,7 +840,7 @@ Theorem pack_name_spec s cap cp st st' :
        1 <= nthN (pn_out st) q 0 < 64 /\ lays (pn_out st) q lsT).
 Proof.
   intros Hs Hinv H. apply st_inv_split in Hinv. destruct Hinv as [Hkeys Hlaid].
-  destruct (pack_name_step s cap cp st st' Hs Hkeys H) as [ls [b [Hp [Hlen [Hout [Hk' [Hnone [Hb Hc]]]]]]]].
+  destruct (pack_name_step s cap cp st st' Hs Hkeys H) as [ls [b [Hp [Hlen [Hout [_ [Hk' [Hnone [Hb Hc]]]]]]]]].
   destruct (Hc (pn_out st) eq_refl Hlaid) as [[h Hlay] Hlaid'].
   rewrite <- Hout in Hlay, Hlaid'.
   replace (lenN (pn_out st) + lenN b) with (lenN (pn_out st')) in Hlay by (rewrite Hout, lenN_app; reflexivity).
@@ -874,18 +1013,16 @@ Proof.
 Qed.
 
 (* and the packer itself produces such a name from the empty map *)
-Theorem pack_name_undecodable_127 :
-  exists st s st', pack_all (map chain_name (seq 1 127)) {| pn_out := []; pn_cm := Some [] |} = Ok st /\
-    pack_name s 4096 true st = Ok st' /\
-    exists ls, parse_name s = Some ls /\ valid_wire ls = true /\ length ls = 127%nat /\
-      unpack_name (pn_out st') (lenN (pn_out st)) = Err "pointers".
-Proof.
-  destruct (pack_all (map chain_name (seq 1 127)) {| pn_out := []; pn_cm := Some [] |}) as [st| | |] eqn:E;
-    try (vm_compute in E; discriminate).
-  destruct (pack_name (chain_name 127) 4096 true st) as [st'| | |] eqn:E';
-    try (exfalso; vm_compute in E; injection E as <-; vm_compute in E'; discriminate).
-  exists st, (chain_name 127), st'. split; [reflexivity|]. split; [exact E'|].
-  exists chain_labels. split; [vm_compute; reflexivity|]. split; [vm_compute; reflexivity|].
-  split; [vm_compute; reflexivity|].
-  vm_compute in E. injection E as <-. vm_compute in E'. injection E' as <-. vm_compute. reflexivity.
-Qed.
+Example pack_name_undecodable_127 :
+  match pack_all (map chain_name (seq 1 127)) {| pn_out := []; pn_cm := Some [] |} with
+  | Ok st =>
+    match pack_name (chain_name 127) 4096 true st with
+    | Ok st' =>
+      parse_name (chain_name 127) = Some chain_labels /\ valid_wire chain_labels = true /\
+      length chain_labels = 127%nat /\
+      unpack_name (pn_out st') (lenN (pn_out st)) = Err "pointers"
+    | _ => False
+    end
+  | _ => False
+  end.
+Proof. vm_compute. repeat split. Qed.
